@@ -92,24 +92,49 @@ class Probe(EventListener):
         self.stat = stat
         self.names = {}
         self.last = {}
+        self.react = None
+        self.react_seen = 0
         for n, g in PUBLISHED[kind].items():
             self.names[id(getattr(StatEvents, n))] = (n, g)
 
     def notify(self, event):
         ent = self.names.get(id(event.event_type))
         self.ext.published += 1
-        if ent is None:
-            return
-        n, g = ent
+        if ent is not None:
+            n, g = ent
+            try:
+                now = getattr(self.stat, g[0])(*g[1:])
+            except Exception as e:
+                now = "raised:" + type(e).__name__
+            self.last[n] = (event.content, g)
+            if not same(event.content, now):
+                self.ext.mismatches.append(
+                    "statistic #%d (%s) published %s = %r but %s() returns %r at that moment"
+                    % (self.idx, self.kind, n, event.content, g[0], now))
+        if self.react is not None and id(event.event_type) == self.react_type:
+            self.react_seen += 1
+            if self.react_seen == self.react[1]:
+                self.do_react()
+
+    def do_react(self):
+        """Change the statistic from inside the notification (once)."""
+        st, kind = self.stat, self.kind
+        self.ext.reactions += 1
         try:
-            now = getattr(self.stat, g[0])(*g[1:])
+            if self.react[2] == "initialize":
+                st.initialize()
+            elif kind == "counter":
+                st.register(1)
+            elif kind == "tally":
+                st.register(1.0)
+            elif kind == "wtally":
+                st.register(1.0, 1.0)
+            else:
+                st.register(float(st.simulator.simulator_time), 1.0)
         except Exception as e:
-            now = "raised:" + type(e).__name__
-        self.last[n] = (event.content, g)
-        if not same(event.content, now):
-            self.ext.mismatches.append(
-                "statistic #%d (%s) published %s = %r but %s() returns %r at that moment"
-                % (self.idx, self.kind, n, event.content, g[0], now))
+            self.ext.errors.append("re-entrant %s of statistic #%d (%s) from inside a "
+                                   "notification raised %s: %s"
+                                   % (self.react[2], self.idx, kind, type(e).__name__, e))
 
     def __eq__(self, o):
         return self is o
@@ -125,6 +150,7 @@ class StatsExt:
         self.mismatches = []
         self.errors = []
         self.obs_count = 0
+        self.reactions = 0
 
     def on_construct(self, runner, model):
         sim = runner.sim
@@ -153,6 +179,11 @@ class StatsExt:
                 st._vf_probe = pr
                 for n in PUBLISHED[kind]:
                     st.add_listener(getattr(StatEvents, n), pr)
+                if sp.get("react"):
+                    pr.react = sp["react"]
+                    et = getattr(StatEvents, sp["react"][0])
+                    pr.react_type = id(et)
+                    st.add_listener(et, pr)
         model.streams = [MersenneTwister(s) for s in self.case.get("stream_seeds", [])]
 
     def perform(self, runner, model, owner, idx, a):
@@ -211,7 +242,9 @@ class StatsExt:
         # what was published for this observation must describe the state that
         # includes it (not the state before the update)
         pr = getattr(st, "_vf_probe", None)
-        if pr is not None:
+        if pr is not None and pr.react is not None:
+            pr.last = {}
+        elif pr is not None:
             for n, (content, g) in pr.last.items():
                 try:
                     now = getattr(st, g[0])(*g[1:])
